@@ -35,6 +35,20 @@ def run(ctx):
                 continue
             loops = {id(l[0]): l for l in g.stub_loops()}
             good_loops = []
+            # a shuffle of the CHUNKS a stub list was cut into permutes whole groups: inside each group the stubs keep their
+            # construction order, so which vertices share a motif is fixed by vertex order
+            chunked = False
+            for call, arg in calls:
+                if isinstance(arg, ast.Name):
+                    d_ = [s_ for s_ in sc.assigns.get(arg.id, []) if isinstance(s_, ast.Assign) and isinstance(s_.value, ast.Call)]
+                    others_ = [c2 for c2, a2 in calls if c2 is not call and not (isinstance(a2, ast.Name) and a2.id == arg.id)]
+                    if d_ and txt(d_[-1].value.func).split(".")[-1] in ("partition", "grouper", "batched", "chunk", "chunks", "partition_list") and d_[-1].value.args and not others_:
+                        chunked = True
+                        o1.violated(fn, call, f"`{txt(call)}` shuffles `{arg.id}`, the list of CHUNKS made by `{txt(d_[-1].value)[:50]}` from an unshuffled stub list: the groups are permuted but "
+                                              "each group still holds consecutive stubs - motifs are always built from neighbouring vertex numbers, other placements are unreachable", shape_free=True)
+            if chunked:
+                o2.undecided("see C03.1", fn)
+                continue
             for call, arg in calls:
                 stmt = g.par.stmt_of(call)
                 encl = g.par.loops_of(call)
